@@ -7,7 +7,12 @@ import socksio
 
 from .._backends.sync import SyncBackend
 from .._backends.base import NetworkBackend, NetworkStream
-from .._exceptions import ConnectionNotAvailable, ProxyError
+from .._exceptions import (
+    ConnectionNotAvailable,
+    ProxyError,
+    RemoteProtocolError,
+    map_exceptions,
+)
 from .._models import URL, Origin, Request, Response, enforce_bytes, enforce_url
 from .._ssl import default_ssl_context
 from .._synchronization import Lock, ShieldCancellation
@@ -61,7 +66,8 @@ def _init_socks5_connection(
 
     # Auth method response
     incoming_bytes = stream.read(max_bytes=4096, timeout=timeout)
-    response = conn.receive_data(incoming_bytes)
+    with map_exceptions({socksio.ProtocolError: RemoteProtocolError}):
+        response = conn.receive_data(incoming_bytes)
     assert isinstance(response, socksio.socks5.SOCKS5AuthReply)
     if response.method != auth_method:
         requested = AUTH_METHODS.get(auth_method, "UNKNOWN")
@@ -80,7 +86,8 @@ def _init_socks5_connection(
 
         # Username/password response
         incoming_bytes = stream.read(max_bytes=4096, timeout=timeout)
-        response = conn.receive_data(incoming_bytes)
+        with map_exceptions({socksio.ProtocolError: RemoteProtocolError}):
+            response = conn.receive_data(incoming_bytes)
         assert isinstance(response, socksio.socks5.SOCKS5UsernamePasswordReply)
         if not response.success:
             raise ProxyError("Invalid username/password")
@@ -96,7 +103,8 @@ def _init_socks5_connection(
 
     # Connect response
     incoming_bytes = stream.read(max_bytes=4096, timeout=timeout)
-    response = conn.receive_data(incoming_bytes)
+    with map_exceptions({socksio.ProtocolError: RemoteProtocolError}):
+        response = conn.receive_data(incoming_bytes)
     assert isinstance(response, socksio.socks5.SOCKS5Reply)
     if response.reply_code != socksio.socks5.SOCKS5ReplyCode.SUCCEEDED:
         reply_code = REPLY_CODES.get(response.reply_code, "UNKOWN")
